@@ -322,12 +322,15 @@ def extra_c02(pid, tier, seed, workdir, known, write_replay):
     out, case_by_id = run_tool_on_streams([os.path.join(BIN, "oracle_wgpu")], streams, workdir, "oracle")
     items, counts = [], {}
     ncase = 0
+    oracle_entries = {}
     for line in out.split("\n"):
         if not line.startswith("(oracle"):
             continue
         ncase += 1
         t = parse_sexp(line)[0]
         cid, status = sx(t[1]), t[2]
+        if status == "ok":
+            oracle_entries[cid] = {"bind": set(), "bgl": set()}
         status = status if isinstance(status, str) else "panic"
         counts["status:" + status] = counts.get("status:" + status, 0) + 1
         if status == "panic":
@@ -345,6 +348,8 @@ def extra_c02(pid, tier, seed, workdir, known, write_replay):
                         if kind == "Input" or kind == "ShaderLocationClash":
                             continue          # vertex inputs are property C07's
                         inner = sx(v[4]) if kind == "Binding" else (sx(v[4]) if kind == "Filtering" else "")
+                        if kind == "Binding" and cid in oracle_entries:
+                            oracle_entries[cid]["bind"].add((str(v[2]), str(v[3]), inner))
                         sig = f"oracle#{kind}-{inner}".rstrip("-")
                         counts[sig] = counts.get(sig, 0) + 1
                         items.append((sig, f"wgpu-core check_stage rejects entry point {sx(ep[1])} ({ep[2]}): {' '.join(str(sx(a)) for a in v[1:])[:300]}", cid, True))
@@ -362,9 +367,34 @@ def extra_c02(pid, tier, seed, workdir, known, write_replay):
                         counts["bgl:ok"] = counts.get("bgl:ok", 0) + 1
                         continue
                     var = sx(e[3][1])
+                    if cid in oracle_entries:
+                        oracle_entries[cid]["bgl"].add((str(e[1]), str(e[2]), re.sub(r"[^A-Za-z0-9]", "", var.split("(")[0])))
                     sig = "oracle#bgl-" + re.sub(r"[^A-Za-z0-9]", "", var.split("(")[0])
                     counts[sig] = counts.get(sig, 0) + 1
                     items.append((sig, f"create_bind_group_layout rules reject group {e[1]} binding {e[2]}: {var}", cid, True))
+    # spec validation: the Lean transcription Ext.WgpuBinding against the real library, entry by entry
+    lean = {}
+    d = subprocess.run([os.path.join(BIN, "dump"), "--opts", "0"], stdin=open(os.path.join(workdir, "oracle.cases")), stdout=subprocess.PIPE, text=True)
+    v = subprocess.run([DRIVER, "C02"], input=d.stdout, stdout=subprocess.PIPE, text=True)
+    for line in v.stdout.split("\n"):
+        if line.startswith("V|C02|"):
+            f = line.split("|", 6)
+            lean[f[2]] = {tuple(t.split(":", 1)[1].split(".")) for t in f[6].split(",") if t.startswith("lean:")}
+    agree = disagree = 0
+    for cid, o in oracle_entries.items():
+        l = lean.get(cid)
+        if l is None:
+            continue
+        l_bind = {(g, b, e) for g, b, e, _ in l if e != "-"}
+        l_bgl = {(g, b, e) for g, b, _, e in l if e != "-"}
+        ok = o["bind"] <= l_bind and o["bgl"] == l_bgl
+        if ok:
+            agree += 1
+        else:
+            disagree += 1
+            items.append(("oracle#transcription-disagrees", f"Ext.WgpuBinding says binding errors {sorted(l_bind)} bgl {sorted(l_bgl)}; wgpu-core says binding errors {sorted(o['bind'])} bgl {sorted(o['bgl'])}", cid, False))
+    counts["transcription-agrees-cases"] = agree
+    counts["transcription-disagrees-cases"] = disagree
     viol, kn = classify_and_report(pid, items, known, write_replay, case_by_id)
     return {"oracle_cases": ncase, "oracle_verdicts": counts,
             "oracle": "wgpu_core::validation::Interface::check_stage (Provided + Derived mode) and the per-entry rules of Device::create_bind_group_layout, on the real generated entries"}, viol, kn, []
@@ -402,8 +432,8 @@ PROPS["C05"] = dict(
 )
 
 PROPS["C06"] = dict(
-    lean_modules=["WgslVerif.Props.C06"],
-    theorems=["WgslVerif.C06", "WgslVerif.C06_denote", "WgslVerif.C06_fields", "WgslVerif.C06'"],
+    lean_modules=["WgslVerif.Props.C06", "WgslVerif.Props.C06Repr"],
+    theorems=["WgslVerif.C06", "WgslVerif.C06_denote", "WgslVerif.C06_repr", "WgslVerif.C06_fields", "WgslVerif.C06'"],
     streams=lambda tier, seed: (
         [("fixtures",), ("gen", "structs", seed, 400), ("gen", "general", seed, 200), ("gen", "vertex", seed, 100)] if tier == "quick" else
         [("fixtures",), ("gen", "structs", seed, 10000), ("gen", "general", seed, 5000), ("gen", "vertex", seed, 2000), ("gen", "scale", seed, 300)]),
